@@ -242,7 +242,7 @@ impl<K: Kit> Drv<K> {
         let space = MonSpace::<K>::new(&self.kit, &self.log, mode)?;
         let goal = MonGoal::<K>::new(&self.kit, &self.log, &problem.goal)?;
         let start_states = match starts {
-            None => vec![self.kit.unflat(&problem.start)],
+            None => std::iter::once(&problem.start).chain(problem.extra_starts.iter()).map(|f| self.kit.unflat(f)).collect(),
             Some(l) => l.iter().map(|f| self.kit.unflat(f)).collect(),
         };
         let pd = Arc::new(ProblemDefinition { space: Arc::new(space), start_states, goal: Arc::new(goal) });
